@@ -1,5 +1,6 @@
 """C01 - rrule yields exactly the RFC 5545 recurrence set, in order."""
 import ast
+import re
 import calendar
 
 from ..model import src, walk_local, AnalysisError, FuncInfo
@@ -367,7 +368,17 @@ def run(ctx):
     okc = len(cr) == 1 and src(cr[0].ast.exc).startswith("ValueError") and any(tv and t.replace(" ", "") in ("len(cset)==0", "notcset") for t, tv in ctx.facts(cb).at(cr[0]))
     ctx.ob("C01.GUARD", cb, "a same-level BY set with no reachable member raises ValueError", okc, construct="empty cset guard")
     inv = [n for n in cfg.live_nodes() if n.kind == "stmt" and isinstance(n.ast, ast.Raise)]
-    okv = len(inv) == 2 and all(src(r.ast.exc).startswith("ValueError") and ("valid", False) in facts.at(r) for r in inv)
+    # either spelling of "the search found nothing": a flag that stayed false, or the else clause of the searching for loop
+    in_for_else = set()
+    for lp_ in walk_local(it.node):
+        if isinstance(lp_, ast.For) and lp_.orelse and any(isinstance(x, ast.Break) for b_ in lp_.body for x in ast.walk(b_)):
+            for s_ in lp_.orelse:
+                for x in ast.walk(s_):
+                    in_for_else.add(id(x))
+
+    def flag_false(r):
+        return any((not tv) and re.match(r"^\w+$", t) for t, tv in facts.at(r))
+    okv = len(inv) == 2 and all(src(r.ast.exc).startswith("ValueError") and (flag_false(r) or id(r.ast) in in_for_else) for r in inv)
     ctx.ob("C01.GUARD", it, "MINUTELY/SECONDLY rules whose BY filters can never be met raise ValueError instead of looping", okv, construct="not valid -> ValueError",
            detail=str([src(r.ast.exc)[:40] for r in inv]))
 
